@@ -255,7 +255,27 @@ private:
   }
 
   void gather_assertions() {
+    // The backward analysis starts at the exit block so it never sees
+    // the blocks that cannot reach it: their assertions cannot be
+    // discharged by an empty error precondition of a dominator.
+    std::set<basic_block_label_t> can_reach_exit;
+    if (m_cfg.has_exit()) {
+      std::vector<basic_block_label_t> worklist{m_cfg.exit()};
+      can_reach_exit.insert(m_cfg.exit());
+      while (!worklist.empty()) {
+        basic_block_label_t n = worklist.back();
+        worklist.pop_back();
+        for (auto const &p : m_cfg.prev_nodes(n)) {
+          if (can_reach_exit.insert(p).second) {
+            worklist.push_back(p);
+          }
+        }
+      }
+    }
     for (auto it = m_cfg.begin(), et = m_cfg.end(); it != et; ++it) {
+      if (can_reach_exit.count(it->label()) == 0) {
+        continue;
+      }
       for (auto &s : *it) {
         if (s.is_assert() || s.is_bool_assert() || s.is_ref_assert()) {
           m_unproven_assertions.push_back({it->label(), &s});
